@@ -30,6 +30,10 @@ use crate::world::Files;
 pub enum Illegal {
     /// P names Q::item, Q is in the project (loaded through somebody else) but P does not import it
     NotImported,
+    /// P mentions an item of a *transitive* (loaded, not imported) package in a position that
+    /// is not a plain call: signature type, let annotation, closure parameter annotation,
+    /// generic bound, trait-method path, inherent-method path
+    NotImportedVia(Via),
     /// import of a package with no directory
     MissingPackage,
     /// a file in a package directory declares another package name
@@ -48,8 +52,26 @@ pub enum Illegal {
     UnknownItem,
 }
 
-pub const ILLEGAL_KINDS: [Illegal; 9] = [
+#[derive(Clone, Copy, Debug, PartialEq, serde::Serialize, serde::Deserialize)]
+pub enum Via {
+    SignatureType,
+    LetAnnotation,
+    ClosureParam,
+    GenericBound,
+    TraitPath,
+    InherentPath,
+    StructLiteral,
+}
+
+pub const ILLEGAL_KINDS: [Illegal; 16] = [
     Illegal::NotImported,
+    Illegal::NotImportedVia(Via::SignatureType),
+    Illegal::NotImportedVia(Via::LetAnnotation),
+    Illegal::NotImportedVia(Via::ClosureParam),
+    Illegal::NotImportedVia(Via::GenericBound),
+    Illegal::NotImportedVia(Via::TraitPath),
+    Illegal::NotImportedVia(Via::InherentPath),
+    Illegal::NotImportedVia(Via::StructLiteral),
     Illegal::MissingPackage,
     Illegal::MisnamedPackage,
     Illegal::Cycle,
@@ -94,6 +116,46 @@ pub fn inject(proj: &Project, kind: &Illegal, p: &mut Prng) -> Option<(Files, Fi
             bad = twin.clone();
             bad.pkgs[pi].raw_last.push_str(&format!("\nfn zz_bad() -> int32 {{\n    {}::zz_pub()\n}}\n", proj.pkgs[qi].name));
             desc = format!("{} uses {}::zz_pub without importing {}", proj.pkgs[pi].name, proj.pkgs[qi].name, proj.pkgs[qi].name);
+        }
+        Illegal::NotImportedVia(via) => {
+            // chain P -> R -> Q with Q not imported by P (Q is loaded before P)
+            let mut chains = Vec::new();
+            for pi in 0..n {
+                for &ri in &proj.pkgs[pi].imports {
+                    for &qi in &proj.pkgs[ri].imports {
+                        if qi != pi && !proj.pkgs[pi].imports.contains(&qi) {
+                            chains.push((pi, ri, qi));
+                        }
+                    }
+                }
+            }
+            if chains.is_empty() {
+                return None;
+            }
+            let (pi, ri, qi) = *p.pick(&chains);
+            let (pn, rn, qn) = (proj.pkgs[pi].name.clone(), proj.pkgs[ri].name.clone(), proj.pkgs[qi].name.clone());
+            // legal helpers: Q exports a struct, a trait and an inherent method; R (which imports
+            // Q) exports a constructor returning Q's struct and a struct implementing Q's trait
+            twin.pkgs[qi].raw.push_str(
+                "\nstruct ZzS {\n    x: int32,\n}\n\ntrait ZzT {\n    fn zz(Self) -> int32;\n}\n\nimpl ZzS {\n    fn zzm(self: ZzS) -> int32 {\n        self.x\n    }\n}\n",
+            );
+            twin.pkgs[ri].raw.push_str(&format!(
+                "\nstruct ZzR {{\n    x: int32,\n}}\n\nimpl {qn}::ZzT for ZzR {{\n    fn zz(self: ZzR) -> int32 {{\n        self.x\n    }}\n}}\n\nfn zz_make() -> {qn}::ZzS {{\n    {qn}::ZzS {{ x: 5 }}\n}}\n"
+            ));
+            // P legally holds a value of the transitive type without naming it
+            twin.pkgs[pi].raw_last.push_str(&format!("\nfn zz_ok() -> int32 {{\n    let v = {rn}::zz_make();\n    1\n}}\n"));
+            bad = twin.clone();
+            let item = match via {
+                Via::SignatureType => format!("fn zz_bad(a: {qn}::ZzS) -> int32 {{\n    1\n}}\n"),
+                Via::LetAnnotation => format!("fn zz_bad() -> int32 {{\n    let v: {qn}::ZzS = {rn}::zz_make();\n    1\n}}\n"),
+                Via::ClosureParam => format!("fn zz_bad() -> int32 {{\n    let g = |s: {qn}::ZzS| 1;\n    g({rn}::zz_make())\n}}\n"),
+                Via::GenericBound => format!("fn zz_bad[T: {qn}::ZzT](x: T) -> int32 {{\n    1\n}}\n"),
+                Via::TraitPath => format!("fn zz_bad() -> int32 {{\n    {qn}::ZzT::zz({rn}::ZzR {{ x: 2 }})\n}}\n"),
+                Via::InherentPath => format!("fn zz_bad() -> int32 {{\n    {qn}::ZzS::zzm({rn}::zz_make())\n}}\n"),
+                Via::StructLiteral => format!("fn zz_bad() -> int32 {{\n    let v = {qn}::ZzS {{ x: 3 }};\n    1\n}}\n"),
+            };
+            bad.pkgs[pi].raw_last.push_str(&format!("\n{item}"));
+            desc = format!("{pn} names {qn}::… ({via:?}) although it imports only {rn}, which imports {qn}");
         }
         Illegal::MissingPackage => {
             let pi = p.usize(n);
